@@ -3,7 +3,6 @@
 
 use crate::fw::*;
 use crate::iso;
-use crate::par::par_map;
 use serde_json::{json, Value};
 use std::time::{Duration, Instant};
 use trust_syntax::lexer::lex;
@@ -16,6 +15,8 @@ const ALPHABET: &[&str] = &[
     ")", "[", "]", ",", ".", "..", "+", "-", "*", "NOT", "(*", "*)", "//c\n", "{p}", "{", "#",
     "INT#", "T#1s", "%IX0.0", "é", "😀", "^", "=>", "FUNCTION", "END_FUNCTION", "INT", "ARRAY",
     "STRUCT", "END_STRUCT", "TYPE", "END_TYPE", "\"w", "16#", "\r\n",
+    // invisible / special code points: byte-order mark, no-break space, NUL
+    "\u{FEFF}", "\u{A0}", "\0",
 ];
 
 fn clip(s: &str, n: usize) -> String {
@@ -265,7 +266,7 @@ fn soup_text(idx: usize, len: usize, sep: &str) -> String {
 /// (thorough tier) are enumerated over this sub-alphabet only.
 const CORE: &[&str] = &[
     "'s", "'s'", "(*", "*)", "//c\n", "{p}", "{", "#", "INT#", "T#1s", "%IX0.0", "é", "😀", "\"w", "16#", "\r\n", "1", "1.5",
-    ".", "..", "x", "(", "IF", ";",
+    ".", "..", "x", "(", "IF", ";", "\u{FEFF}", "\0",
 ];
 
 fn soup_text_over(alphabet: &[&str], mut idx: usize, len: usize, sep: &str) -> String {
@@ -278,6 +279,103 @@ fn soup_text_over(alphabet: &[&str], mut idx: usize, len: usize, sep: &str) -> S
     parts.join(sep)
 }
 
+/// The cases of one job, in enumeration order (used by the worker to execute the job and by the
+/// explorer to attribute a job that died).
+fn job_cases(job: &Value, files: &[(String, String)]) -> Vec<Value> {
+    let mut out = Vec::new();
+    match job["k"].as_str() {
+        Some("soup") => {
+            let alphabet = if job["alpha"] == "core" { CORE } else { ALPHABET };
+            let len = job["len"].as_u64().unwrap_or(1) as usize;
+            let sep = job["sep"].as_str().unwrap_or(" ");
+            for idx in job["from"].as_u64().unwrap_or(0) as usize..job["to"].as_u64().unwrap_or(0) as usize {
+                out.push(json!({"kind":"parse","family":"soup","text": soup_text_over(alphabet, idx, len, sep)}));
+            }
+        }
+        Some("mut") => {
+            let Some((name, text)) = files.get(job["file"].as_u64().unwrap_or(u64::MAX) as usize) else { return out };
+            let mut go = |fam: &str, t: String| out.push(json!({"kind":"parse","family":fam,"file":name,"text":t}));
+            go("whole", text.clone());
+            for i in 0..text.len() {
+                if text.is_char_boundary(i) {
+                    go("prefix", text[..i].to_string());
+                }
+            }
+            let toks = lex(text);
+            let rng = |k: usize| {
+                let st: u32 = toks[k].range.start().into();
+                let en: u32 = toks[k].range.end().into();
+                (st as usize, en as usize)
+            };
+            for k in 0..toks.len() {
+                let (st, en) = rng(k);
+                go("del", format!("{}{}", &text[..st], &text[en..]));
+                go("dup", format!("{}{}{}", &text[..en], &text[st..en], &text[en..]));
+                if k + 1 < toks.len() {
+                    let (st2, en2) = rng(k + 1);
+                    go("swap", format!("{}{}{}{}", &text[..st], &text[st2..en2], &text[st..en], &text[en2..]));
+                }
+            }
+        }
+        Some("trivia") => {
+            let Some((name, text)) = files.get(job["file"].as_u64().unwrap_or(u64::MAX) as usize) else { return out };
+            let toks = lex(text);
+            for t in toks.iter().skip(1) {
+                let off: u32 = t.range.start().into();
+                for ins in [" ", "\n", "(* c *)"] {
+                    out.push(json!({"kind":"trivia","family":format!("trivia:{}", ins.escape_default()),"file":name,"text":text,"offset":off,"ins":ins}));
+                }
+            }
+        }
+        _ => {}
+    }
+    out
+}
+
+/// worker: one job (all its cases) or one single case
+pub fn worker_job(job: &Value) -> Value {
+    use std::sync::OnceLock;
+    static FILES: OnceLock<Vec<(String, String)>> = OnceLock::new();
+    if job["k"] == "case" {
+        let v = check_case(&job["case"]);
+        return json!({"cnt": 1, "viol": v.iter().map(|x| json!({"signature": x.signature, "what": x.what, "case": x.case})).collect::<Vec<_>>()});
+    }
+    let files = FILES.get_or_init(|| {
+        let dir = std::env::var("TV_REPO_DIR").unwrap_or_else(|_| "/repo".into());
+        crate::corpus::st_files(std::path::Path::new(&dir))
+    });
+    let mut error_free = false;
+    if job["k"] == "trivia" {
+        // only error-free files take part (the whole file is parsed first)
+        if let Some((_, text)) = files.get(job["file"].as_u64().unwrap_or(u64::MAX) as usize) {
+            match shape_of(text) {
+                Ok((true, _)) => error_free = true,
+                _ => return json!({"cnt": 0, "viol": [], "error_free": false}),
+            }
+        }
+    }
+    let mut cnt = 0u64;
+    let mut viol: Vec<Value> = Vec::new();
+    let mut seen_sig = std::collections::HashSet::new();
+    let mut hashes: Vec<u64> = Vec::new();
+    let want_hashes = job["k"] == "mut";
+    for case in job_cases(job, files) {
+        cnt += 1;
+        if want_hashes {
+            hashes.push(hash64(case["text"].as_str().unwrap_or("")));
+        }
+        for x in check_case(&case) {
+            // the first violation of every signature is enough (enumeration is simplest-first)
+            if seen_sig.insert(x.signature.clone()) {
+                viol.push(json!({"signature": x.signature, "what": x.what, "case": x.case}));
+            }
+        }
+    }
+    hashes.sort_unstable();
+    hashes.dedup();
+    json!({"cnt": cnt, "viol": viol, "hashes": hashes, "error_free": error_free})
+}
+
 pub fn run(ctx: &Ctx) -> EngineResult {
     quiet_panics();
     let mut rep = Report::new("exploration");
@@ -286,50 +384,125 @@ pub fn run(ctx: &Ctx) -> EngineResult {
     if files.len() < 10 {
         return machinery(format!("only {} .st corpus files found under {:?}", files.len(), ctx.repo_dir));
     }
-    let stack = 8 << 20;
     let mut evaluations: u64 = 0;
     let mut distinct = std::collections::HashSet::new();
     let mut err_free_texts = 0u64;
     let mut exhaustive = true;
 
+    // Families (i), (ii) and (iv) run as JOBS in crash-isolated worker processes (address-space
+    // limit, per-job timeout): a parse that never returns or allocates without bound kills one
+    // worker, not the explorer. A job that dies or times out is re-run case by case until the first
+    // case that does not answer, which is reported (`abort` / `hang`); after a few such deaths the
+    // family stops (every further job would pay a full timeout) and the run is not exhaustive.
+    let mut deaths = 0usize;
+    const MAX_DEATHS: usize = 3;
+    let mut run_jobs = |rep: &mut Report, jobs: &[Value], dl: Instant, what: &str, evaluations: &mut u64, distinct: &mut std::collections::HashSet<u64>, ok_files: &mut u64, exhaustive: &mut bool| -> Result<u64, Machinery> {
+        let cfg = iso::PoolCfg {
+            worker: "c12_job",
+            procs: ctx.threads,
+            rlimit_as: 3 << 30,
+            per_case: Duration::from_secs(60),
+            deadline: Some(dl),
+            env: vec![("TV_REPO_DIR".into(), ctx.repo_dir.to_string_lossy().to_string())],
+            stack: 8 << 20,
+        };
+        let outs = iso::run_pool(&cfg, jobs).map_err(Machinery)?;
+        let mut cases_run = 0u64;
+        for (job, o) in jobs.iter().zip(outs) {
+            match o {
+                Some(iso::Outcome::Ok(v)) => {
+                    let cnt = v["cnt"].as_u64().unwrap_or(0);
+                    *evaluations += cnt;
+                    cases_run += cnt;
+                    if v["error_free"].as_bool() == Some(true) {
+                        *ok_files += 1;
+                    }
+                    for h in v["hashes"].as_array().cloned().unwrap_or_default() {
+                        distinct.insert(h.as_u64().unwrap_or(0));
+                    }
+                    for b in v["viol"].as_array().cloned().unwrap_or_default() {
+                        rep.violation(Violation {
+                            signature: b["signature"].as_str().unwrap_or("C12/?").to_string(),
+                            what: b["what"].as_str().unwrap_or("").to_string(),
+                            case: b["case"].clone(),
+                        });
+                    }
+                }
+                Some(iso::Outcome::Panic(m)) => return Err(Machinery(format!("C12 job worker panicked outside the subject: {m}"))),
+                Some(iso::Outcome::Died(_)) | Some(iso::Outcome::Timeout) => {
+                    *exhaustive = false;
+                    if deaths >= MAX_DEATHS {
+                        continue;
+                    }
+                    deaths += 1;
+                    // attribute: one case per request, in order, until the first one that does not answer
+                    let single = iso::PoolCfg {
+                        worker: "c12_job",
+                        procs: 1,
+                        rlimit_as: 3 << 30,
+                        per_case: Duration::from_secs(15),
+                        deadline: None,
+                        env: vec![("TV_REPO_DIR".into(), ctx.repo_dir.to_string_lossy().to_string())],
+                        stack: 8 << 20,
+                    };
+                    let mut w = iso::Worker::new(&single);
+                    let mut found = false;
+                    for case in job_cases(job, &files) {
+                        match w.call(&json!({"k": "case", "case": case})).map_err(Machinery)? {
+                            iso::Outcome::Ok(_) => {}
+                            iso::Outcome::Panic(m) => return Err(Machinery(format!("C12 job worker panicked outside the subject: {m}"))),
+                            other => {
+                                let fam = case["family"].as_str().unwrap_or("?").to_string();
+                                let (clause, detail) = match other {
+                                    iso::Outcome::Timeout => ("hang", "no answer within 15 s".to_string()),
+                                    iso::Outcome::Died(m) => ("abort", format!("the process died: {}", clip(&m, 160))),
+                                    _ => unreachable!(),
+                                };
+                                rep.violation(Violation {
+                                    signature: format!("C12/{clause}/{}", fam.split(':').next().unwrap_or(&fam)),
+                                    what: format!("{clause}: parsing {:?} — {detail}", clip(case["text"].as_str().unwrap_or(""), 80)),
+                                    case: case.clone(),
+                                });
+                                found = true;
+                                break;
+                            }
+                        }
+                    }
+                    if !found {
+                        rep.cap(format!("{what}: a job died or timed out as a whole but every one of its cases answered alone (load?)"));
+                    }
+                }
+                None => *exhaustive = false,
+            }
+        }
+        if deaths >= MAX_DEATHS {
+            rep.cap(format!("{what}: stopped attributing after {MAX_DEATHS} process deaths / hangs"));
+        }
+        Ok(cases_run)
+    };
+
     // (i) token soups, simplest first: length 1..=4 over the whole alphabet, separated by " " and
     // glued; thorough: lengths 5 and 6 over the core sub-alphabet. The soups have their own share of
     // the wall budget so that the families below always run.
     let soup_deadline = Instant::now() + Duration::from_secs(ctx.tier.pick(30, 540));
-    let stages: Vec<(&[&str], usize)> = ctx.tier.pick(
-        vec![(ALPHABET, 1), (ALPHABET, 2), (ALPHABET, 3), (ALPHABET, 4)],
-        vec![(ALPHABET, 1), (ALPHABET, 2), (ALPHABET, 3), (ALPHABET, 4), (CORE, 5), (CORE, 6)],
-    );
-    for (alphabet, len) in stages {
-        let n = alphabet.len();
+    let stages: Vec<(&str, usize)> = ctx.tier.pick(vec![("full", 1), ("full", 2), ("full", 3), ("full", 4)], vec![("full", 1), ("full", 2), ("full", 3), ("full", 4), ("core", 5), ("core", 6)]);
+    let mut unused_ok = 0u64;
+    for (alpha, len) in stages {
+        let n = if alpha == "full" { ALPHABET.len() } else { CORE.len() };
         let total = n.pow(len as u32);
-        let chunk = 2000usize;
-        let chunks: Vec<usize> = (0..total.div_ceil(chunk)).collect();
+        let chunk = 20_000usize;
+        let mut jobs = Vec::new();
         for sep in [" ", ""] {
-            let res = par_map(&chunks, ctx.threads, stack, Some(soup_deadline), |_, &c| {
-                let mut v = Vec::new();
-                let mut cnt = 0u64;
-                for idx in c * chunk..((c + 1) * chunk).min(total) {
-                    let text = soup_text_over(alphabet, idx, len, sep);
-                    cnt += 1;
-                    for (cl, d) in check_text(&text) {
-                        v.push(viol(&cl, "soup", &d, json!({"kind":"parse","family":"soup","text":text})));
-                    }
-                }
-                (cnt, v)
-            });
-            for r in res {
-                match r {
-                    Some((cnt, v)) => {
-                        evaluations += cnt;
-                        rep.violations_from(v);
-                    }
-                    None => exhaustive = false,
-                }
+            for c in 0..total.div_ceil(chunk) {
+                jobs.push(json!({"k": "soup", "alpha": alpha, "len": len, "sep": sep, "from": c * chunk, "to": ((c + 1) * chunk).min(total)}));
             }
         }
+        let before = exhaustive;
+        run_jobs(&mut rep, &jobs, soup_deadline, "token soups", &mut evaluations, &mut std::collections::HashSet::new(), &mut unused_ok, &mut exhaustive)?;
         if !exhaustive {
-            rep.cap(format!("token soups: wall cap reached at length {len} over {n} tokens"));
+            if before {
+                rep.cap(format!("token soups: not complete at length {len} over {n} tokens (wall cap or process deaths)"));
+            }
             break;
         }
         rep.set("soup_length_completed", len as u64);
@@ -339,101 +512,23 @@ pub fn run(ctx: &Ctx) -> EngineResult {
 
     eprintln!("[C12] soups done at {:.1}s", ctx.elapsed());
     // (ii) corpus: every char-boundary prefix; every single-token deletion / duplication / swap
-    let idxs: Vec<usize> = (0..files.len()).collect();
-    let res = par_map(&idxs, ctx.threads, stack, Some(deadline), |_, &fi| {
-        let (name, text) = &files[fi];
-        let mut v = Vec::new();
-        let mut cnt = 0u64;
-        let mut texts = std::collections::HashSet::new();
-        let mut go = |fam: &str, t: String, v: &mut Vec<Violation>| {
-            cnt += 1;
-            for (cl, d) in check_text(&t) {
-                v.push(viol(&cl, fam, &d, json!({"kind":"parse","family":fam,"file":name,"text":t})));
-            }
-            texts.insert(hash64(&t));
-        };
-        go("whole", text.clone(), &mut v);
-        for i in 0..text.len() {
-            if text.is_char_boundary(i) {
-                go("prefix", text[..i].to_string(), &mut v);
-            }
-        }
-        let toks = lex(text);
-        let rng = |k: usize| {
-            let st: u32 = toks[k].range.start().into();
-            let en: u32 = toks[k].range.end().into();
-            (st as usize, en as usize)
-        };
-        for k in 0..toks.len() {
-            let (st, en) = rng(k);
-            go("del", format!("{}{}", &text[..st], &text[en..]), &mut v);
-            go("dup", format!("{}{}{}", &text[..en], &text[st..en], &text[en..]), &mut v);
-            if k + 1 < toks.len() {
-                let (st2, en2) = rng(k + 1);
-                go(
-                    "swap",
-                    format!("{}{}{}{}", &text[..st], &text[st2..en2], &text[st..en], &text[en2..]),
-                    &mut v,
-                );
-            }
-        }
-        (cnt, v, texts)
-    });
-    for r in res {
-        match r {
-            Some((cnt, v, t)) => {
-                evaluations += cnt;
-                rep.violations_from(v);
-                distinct.extend(t);
-            }
-            None => {
-                exhaustive = false;
-                rep.cap("corpus mutations: wall cap reached");
-            }
-        }
+    let jobs: Vec<Value> = (0..files.len()).map(|fi| json!({"k": "mut", "file": fi})).collect();
+    let before = exhaustive;
+    run_jobs(&mut rep, &jobs, deadline, "corpus mutations", &mut evaluations, &mut distinct, &mut unused_ok, &mut exhaustive)?;
+    if before && !exhaustive {
+        rep.cap("corpus mutations: not complete (wall cap or process deaths)");
     }
     rep.sample(json!({"family":"prefix","file":files[0].0,"text": clip(&files[0].1, 80)}));
 
     eprintln!("[C12] corpus mutations done at {:.1}s", ctx.elapsed());
     // (iv) trivia insertion at every token boundary of every error-free corpus file
-    let inserts: &[&str] = &[" ", "\n", "(* c *)"];
-    let res = par_map(&idxs, ctx.threads, stack, Some(deadline), |_, &fi| {
-        let (name, text) = &files[fi];
-        let mut v = Vec::new();
-        let mut cnt = 0u64;
-        let Ok((ok, _)) = shape_of(text) else { return (0, v, false) };
-        if !ok {
-            return (0, v, false);
-        }
-        let toks = lex(text);
-        for t in toks.iter().skip(1) {
-            let off: u32 = t.range.start().into();
-            for ins in inserts {
-                cnt += 1;
-                let case = json!({"kind":"trivia","family":format!("trivia:{}", ins.escape_default()),"file":name,"text":text,"offset":off,"ins":ins});
-                v.extend(check_case(&case));
-            }
-        }
-        (cnt, v, true)
-    });
-    let mut trivia_cases = 0u64;
-    for r in res {
-        match r {
-            Some((cnt, v, ok)) => {
-                evaluations += cnt;
-                trivia_cases += cnt;
-                if ok {
-                    err_free_texts += 1;
-                }
-                rep.violations_from(v);
-            }
-            None => {
-                exhaustive = false;
-                rep.cap("trivia insertion: wall cap reached");
-            }
-        }
+    let jobs: Vec<Value> = (0..files.len()).map(|fi| json!({"k": "trivia", "file": fi})).collect();
+    let before = exhaustive;
+    let trivia_cases = run_jobs(&mut rep, &jobs, deadline, "trivia insertion", &mut evaluations, &mut std::collections::HashSet::new(), &mut err_free_texts, &mut exhaustive)?;
+    if before && !exhaustive {
+        rep.cap("trivia insertion: not complete (wall cap or process deaths)");
     }
-    if err_free_texts == 0 && Instant::now() < deadline {
+    if err_free_texts == 0 && exhaustive {
         return machinery("no error-free corpus file: trivia family vacuous");
     }
 
@@ -510,7 +605,7 @@ pub fn run(ctx: &Ctx) -> EngineResult {
 }
 
 pub fn workers() -> Vec<(&'static str, iso::WorkerFn)> {
-    vec![("c12_nest", worker_nest as iso::WorkerFn)]
+    vec![("c12_nest", worker_nest as iso::WorkerFn), ("c12_job", worker_job as iso::WorkerFn)]
 }
 
 pub fn hash64(s: &str) -> u64 {
